@@ -132,6 +132,15 @@ class Mon:
                 self.viol(f"{spec[0]}/none-accepted-when-required", f"{spec}.{op}(None) -> {r!r}", spec, "none", None)
             if not required and (st == "exc" or r is not None):
                 self.viol(f"{spec[0]}/none-not-passed-through", f"{spec}.{op}(None) -> {r!r}", spec, "none", None)
+        # "no text" is no value either: for every type but the strings, an empty or blank text is refused where a value is required,
+        # and is refused or read as None where it is not (never read as some value)
+        if spec[0].split(":")[-1] not in ("String", "NagString") and not (spec[0] == "ListElement" and spec[1][0] in ("String", "NagString")):
+            for t in ("", " ", "  \t", "\n"):
+                ctx.ev()
+                ctx.count("law_blank_text")
+                st, r, _ = self.call(conv, "convert", t)
+                if st == "ok" and (required or r is not None):
+                    self.viol(f"{spec[0]}/blank-text-read-as-{'nothing-though-required' if r is None else 'a-value'}", f"{spec}.convert({t!r}) -> {r!r}", spec, "blank", t)
 
 
 def build(T, spec):
